@@ -167,6 +167,7 @@ def check_defaults(ctx, case, y, y2, ty, doc, built, src):
 # --------------------------------------------------------------------------- further main classes reaching the same classes
 
 WRAP_SHAPES = ['direct', 'direct', 'list', 'optional', 'dict']
+WRAP_CAP = 64          # subsets per class that are also loaded through the further main classes (all of them in the quick tier)
 
 
 def gen_wrappers(rng, ty, fresh, meta):
@@ -283,7 +284,8 @@ def run_default(ctx: C.Ctx):
                 ctx.count('exhaustive_classes')
             else:
                 subsets = [()] + [tuple(p for p in pos if rng.random() < rng.choice([0.15, 0.4])) for _ in range(ctx.quick(24, 200))]
-            for S in subsets:
+            stride = (len(subsets) - 1) // WRAP_CAP + 1
+            for k_, S in enumerate(subsets):
                 i = idx
                 idx += 1
                 if ctx.done(i):
@@ -293,6 +295,8 @@ def run_default(ctx: C.Ctx):
                 d = delete_paths(doc, S)
                 case = {'ty': ty, 'doc': repr(d)[:500], 'deleted': repr(S)}
                 for tgt in order:
+                    if tgt >= 0 and k_ % stride:
+                        continue               # large power sets (thorough tier): every stride-th subset goes through the further main classes
                     if tgt >= 0:
                         wty, shape, fname = wraps[tgt]
                         judge_wrapped(ctx, 'absent', '', case, wty, shape, fname, built.get(wty['info']['name']), ty, d, built,
@@ -416,7 +420,8 @@ def run_v1(ctx: C.Ctx):
                 subsets = [()] + [tuple(p for p in pos if rng.random() < rng.choice([0.15, 0.4])) for _ in range(ctx.quick(24, 200))]
             if kw_req:
                 subsets = subsets[:3]      # a known finding: a few records per class are enough
-            for S in subsets:
+            stride = (len(subsets) - 1) // WRAP_CAP + 1
+            for k_, S in enumerate(subsets):
                 i = idx
                 idx += 1
                 if ctx.done(i):
@@ -426,6 +431,8 @@ def run_v1(ctx: C.Ctx):
                 d = delete_paths(doc, S)
                 case = {'ty': ty, 'doc': repr(d)[:500], 'deleted': repr(S), 'engine': 'v1'}
                 for tgt in order:
+                    if tgt >= 0 and k_ % stride:
+                        continue               # large power sets (thorough tier): every stride-th subset goes through the further main classes
                     if tgt >= 0:
                         wty, shape, fname = wraps[tgt]
                         judge_wrapped(ctx, 'absent:v1', 'v1 ', case, wty, shape, fname, built.get(wty['info']['name']), ty, d, built,
